@@ -1,7 +1,7 @@
 CONSTANTS
   Uids = {1, 2, 3}
   Passwords = {1, 2}
-  Tokens = {1, 2, 3, 4}
+  Tokens = {1, 2, 3}
   MaxLive = 3
   MaxClock = 4
   LifeDefault = 1
